@@ -184,6 +184,11 @@ func model(c *vrun.Ctx, o modelOpts, fn func(st tla.State) error) error {
 	return nil
 }
 
+// corrupt reports whether the self-test named what is switched on
+// (VERIF_C20_CORRUPT=<what>): one expected value or one recorded trace field
+// is falsified and the run has to end with a VIOLATION. Never set in a real run.
+func corrupt(what string) bool { return os.Getenv("VERIF_C20_CORRUPT") == what }
+
 func tailOf(s string, n int) string {
 	if len(s) > n {
 		return s[len(s)-n:]
